@@ -58,17 +58,22 @@ MC_INVARIANTS = ('TypeOK', 'DeclImpliesBehavioural', 'BehaviouralImpliesDecl', '
 # model checking
 
 
-def _mc_cfg(ne: int, probes: bool, hand: int, invariants: T.Sequence[str]) -> str:
-    return ('SPECIFICATION Spec\nCONSTANTS NE = %d\n WithProbes = %s\n Hand = %d\n' % (ne, 'TRUE' if probes else 'FALSE', hand)
+def _mc_cfg(ne: int, probes: bool, hand: int, invariants: T.Sequence[str], src: bool = True) -> str:
+    b = {True: 'TRUE', False: 'FALSE'}
+    return ('SPECIFICATION Spec\nCONSTANTS NE = %d\n WithProbes = %s\n WithSrc = %s\n Hand = %d\n' % (ne, b[probes], b[src], hand)
             + ''.join(f'INVARIANT {i}\n' for i in invariants) + 'CHECK_DEADLOCK FALSE\n')
 
 
 def model_check(chk: Check, quick: bool, out: T.Dict[str, T.Any]) -> None:
     """Runs in a thread next to the project executions."""
     laws = ('InvHermetic', 'InvStableProbes', 'InvNoUndeclaredWrite', 'InvConfluent')
-    res = run_tlc(FAM, 'BuildSched_MC', cfg_text=_mc_cfg(3, not quick, 0, MC_INVARIANTS), timeout=3000,
-                  workers=8, allow_violation=False, coverage=not quick)
-    out['family'] = res
+    # every 3-statement graph with reads (32,768 graphs); thorough: also every 3-statement graph over generated
+    # inputs only with reads and failed probes (46,656 graphs)
+    out['family'] = run_tlc(FAM, 'BuildSched_MC', cfg_text=_mc_cfg(3, False, 0, MC_INVARIANTS), timeout=3000,
+                            workers=8, allow_violation=False)
+    if not quick:
+        out['family_probes'] = run_tlc(FAM, 'BuildSched_MC', cfg_text=_mc_cfg(3, True, 0, MC_INVARIANTS, src=False),
+                                       timeout=3000, workers=8, allow_violation=False)
     hand: T.Dict[int, T.Any] = {}
     for k, want in HAND.items():
         r = run_tlc(FAM, 'BuildSched_MC', cfg_text=_mc_cfg(3, False, k, laws + ('TypeOK', 'DeclImpliesBehavioural',
@@ -370,7 +375,7 @@ QUICK_PLAN = [[('hdr', 3), ('chain', None)], [('dep', None), ('script', 0), ('co
 
 
 def make_jobs(chk: Check, quick: bool) -> T.List[T.Dict[str, T.Any]]:
-    cap = 60000 if quick else 400000
+    cap = 60000 if quick else 150000
     jobs: T.List[T.Dict[str, T.Any]] = []
     n_shape = int(os.environ.get('C05_SHAPES') or (len(QUICK_PLAN) if quick else 115))
     n_overlay = int(os.environ.get('C05_OVERLAYS') or (1 if quick else 35))
@@ -439,14 +444,17 @@ def main(chk: Check) -> None:
         th.join()
     if err:
         raise err[0]
-    chk.add_tlc('BuildSched_MC[all graphs NE=3' + ('' if quick else ', with probes') + ']', mc['family'])
+    chk.add_tlc('BuildSched_MC[all graphs NE=3, reads]', mc['family'])
+    if 'family_probes' in mc:
+        chk.add_tlc('BuildSched_MC[all graphs NE=3 over generated inputs, reads + probes]', mc['family_probes'])
     for k, r in mc['hand'].items():
         chk.add_tlc(f'BuildSched_MC[hand-written graph {k}: ' + (HAND_NAMES.get(k, 'Confluent alone on graph 1')) + ']', r)
     chk.extra['vacuity_guard'] = {HAND_NAMES[k]: (HAND[k] or 'holds') for k in HAND}
-    cov = mc['hand'][2].coverage()
-    if not quick:
-        cov = dict(cov, **{'family:' + a: n for a, n in mc['family'].coverage().items()})
-    chk.extra['tlc_coverage_distinct_states_per_action'] = cov
+    chk.extra['tlc_coverage_distinct_states_per_action'] = mc['hand'][2].coverage()
+    cov_lines = [ln.strip().lstrip('|') for ln in mc['hand'][2].stdout.splitlines() if re.search(r'of module BuildSched\w*: \d', ln)]
+    chk.extra['tlc_coverage_hand_graph_2'] = {
+        'expressions_of_BuildSched_reported': len(cov_lines),
+        'never_evaluated': [ln for ln in cov_lines if re.search(r': 0$', ln)][:40]}
     stage = {'model_check+execute': round(time.time() - t0, 1)}
 
     skipped = [c for c in results if 'g' not in c]
